@@ -276,6 +276,11 @@ func (l *log) Get(offset int64) (message.Message, error) {
 	}
 
 	msg, err := rdr.Get(offset)
+	for err == index.ErrOffsetIndexEmpty && offset == message.OffsetNewest && segmentIndex > 0 {
+		// the head segment is empty, the newest message is in an older segment
+		segmentIndex--
+		msg, err = l.readers[segmentIndex].Get(offset)
+	}
 	if err == index.ErrOffsetAfterEnd && segmentIndex < len(l.readers)-1 {
 		return msg, index.ErrOffsetNotFound
 	}
